@@ -51,7 +51,7 @@ theorem GRel.declare {G : GCtx} {A : Act} (hA : A.OK G) {ss mem} {env : CEnv}
 def PGS (G : GCtx) (fuel : Nat) : Prop :=
   ∀ (A : Act), A.OK G → ∀ (loops : List (String × String)) (lscopes : CScopes) (d : Nat) (st : Stmt)
     (env : CEnv) (spec : St) (ip : Nat) (stk : List SVal) (mem : List (Int × Val)),
-    Frag.okGS (!loops.isEmpty) st = true → (∀ x ∈ Frag.identsGS st, x ∈ A.T) →
+    Frag.okGS (!loops.isEmpty) A.rt st = true → (∀ x ∈ Frag.identsGS st, x ∈ A.T) →
     Frag.wsGS G.mod A.src A.φ loops st env = true →
     (∀ m ∈ codeVars (cgS G.mod A.src A.φ loops st env).1, A.N m) →
     Placed A.lab A.σ A.c ip (cgS G.mod A.src A.φ loops st env).1 →
@@ -64,7 +64,7 @@ def PGS (G : GCtx) (fuel : Nat) : Prop :=
 def PGSs (G : GCtx) (fuel : Nat) : Prop :=
   ∀ (A : Act), A.OK G → ∀ (loops : List (String × String)) (lscopes : CScopes) (d : Nat) (ss : List Stmt)
     (env : CEnv) (spec : St) (ip : Nat) (stk : List SVal) (mem : List (Int × Val)),
-    Frag.okGSs (!loops.isEmpty) ss = true → (∀ x ∈ Frag.identsGSs ss, x ∈ A.T) →
+    Frag.okGSs (!loops.isEmpty) A.rt ss = true → (∀ x ∈ Frag.identsGSs ss, x ∈ A.T) →
     Frag.wsGSs G.mod A.src A.φ loops ss env = true →
     (∀ m ∈ codeVars (cgSs G.mod A.src A.φ loops ss env).1, A.N m) →
     Placed A.lab A.σ A.c ip (cgSs G.mod A.src A.φ loops ss env).1 →
@@ -77,7 +77,7 @@ def PGSs (G : GCtx) (fuel : Nat) : Prop :=
 def PGBS (G : GCtx) (fuel : Nat) : Prop :=
   ∀ (A : Act), A.OK G → ∀ (loops : List (String × String)) (lscopes : CScopes) (d : Nat) (b : Block)
     (env : CEnv) (spec : St) (ip : Nat) (stk : List SVal) (mem : List (Int × Val)),
-    Frag.okGBS (!loops.isEmpty) b = true → (∀ x ∈ Frag.identsGBS b, x ∈ A.T) →
+    Frag.okGBS (!loops.isEmpty) A.rt b = true → (∀ x ∈ Frag.identsGBS b, x ∈ A.T) →
     Frag.wsGBS G.mod A.src A.φ loops b env = true →
     (∀ m ∈ codeVars (cgBS G.mod A.src A.φ loops b env).1, A.N m) →
     Placed A.lab A.σ A.c ip (cgBS G.mod A.src A.φ loops b env).1 →
@@ -93,10 +93,11 @@ def PGL (G : GCtx) (fuel : Nat) : Prop :=
     (cnd : Option Expr) (body : Block) (env : CEnv) (spec : St) (ip : Nat) (stk : List SVal)
     (mem : List (Int × Val)),
     let stmt : Stmt := match cnd with | some c => .whileS sp c body | none => .loopS sp body
-    Frag.okGS (!loops.isEmpty) stmt = true → (∀ x ∈ Frag.identsGS stmt, x ∈ A.T) →
+    Frag.okGS (!loops.isEmpty) A.rt stmt = true → (∀ x ∈ Frag.identsGS stmt, x ∈ A.T) →
     Frag.wsGS G.mod A.src A.φ loops stmt env = true →
     (∀ m ∈ codeVars (cgS G.mod A.src A.φ loops stmt env).1, A.N m) →
     Placed A.lab A.σ A.c ip (cgS G.mod A.src A.φ loops stmt env).1 →
+    lscopes = env.scopes.drop d →
     GRel G A env.scopes env.vm spec.scopes mem → SpecOK G A.mp spec →
     SimGS G A loops lscopes d ip (nI (cgS G.mod A.src A.φ loops stmt env).1) stk mem
       (GRel G A env.scopes env.vm) spec (loopRun G.cfg fuel cnd body spec)
@@ -134,12 +135,84 @@ theorem SimGS.error_after {α β : Type} {G : GCtx} {A : Act} {loops lscopes d i
       obtain ⟨h1, mem2, h2, h3, h4⟩ := h
       exact ⟨hfr2 h1, mem2, hrun.trans h2, hml.trans h3, h4⟩
   case ret v =>
-    obtain ⟨h1, mem2, h2, h3⟩ := h
-    exact ⟨hfr2 h1, mem2, hrun.trans h2, hml.trans h3⟩
+    obtain ⟨hrt, h1, mem2, h2, h3⟩ := h
+    exact ⟨hrt, hfr2 h1, mem2, hrun.trans h2, hml.trans h3⟩
   case fatal kd m sp => exact fun hk => hrun.fatal (h hk)
   case unsupported => trivial
   case timeout => trivial
-  case throw => exact h
+  case throw msg tsp =>
+    obtain ⟨h1, mem2, h2, h3, h4⟩ := h
+    exact ⟨hfr2 h1, mem2, Runs.throw [] hrun h2, hml.trans h3, h4⟩
+
+/-- An error of an expression that a statement starts with (operand stack as at the statement's
+start) is that error of the statement. -/
+theorem SimGS.of_exprError {α : Type} {G : GCtx} {A : Act} {loops lscopes d ip n stk mem Q} {scopes : CScopes}
+    {vm : List (String × Nat)} {spec st1 : St} {c : Ctl} (n' : Nat)
+    (hrel : GRel G A scopes vm spec.scopes mem) (hls : lscopes = scopes.drop d)
+    (h : SimGE G A ip n stk mem spec (.error c, st1)) :
+    SimGS (α := α) G A loops lscopes d ip n' stk mem Q spec (.error c, st1) := by
+  cases c <;> first | trivial | exact h.elim | exact h | skip
+  obtain ⟨hfr, mem', hT, hml⟩ := h
+  have hsc : st1.scopes = spec.scopes := by rw [hfr]
+  refine ⟨by rw [hfr], mem', hT, hml.mono (by omega), ?_⟩
+  rw [hls, hsc]
+  exact (hrel.memLe hml).rel.scopes.drop d
+
+theorem SimGS.of_argsError {α : Type} {G : GCtx} {A : Act} {loops lscopes d ip n stk mem Q} {scopes : CScopes}
+    {vm : List (String × Nat)} {spec st1 : St} {c : Ctl} (n' : Nat)
+    (hrel : GRel G A scopes vm spec.scopes mem) (hls : lscopes = scopes.drop d)
+    (h : SimArgs G A ip n stk mem spec (.error c, st1)) :
+    SimGS (α := α) G A loops lscopes d ip n' stk mem Q spec (.error c, st1) := by
+  cases c <;> first | trivial | exact h.elim | exact h | skip
+  obtain ⟨hfr, mem', hT, hml⟩ := h
+  have hsc : st1.scopes = spec.scopes := by rw [hfr]
+  refine ⟨by rw [hfr], mem', hT, hml.mono (by omega), ?_⟩
+  rw [hls, hsc]
+  exact (hrel.memLe hml).rel.scopes.drop d
+
+theorem frame_pop (st st' : St) (h : st' = { st with scopes := st'.scopes, out := st'.out, heap := st'.heap }) :
+    ({ st' with scopes := st'.scopes.tail } : St) =
+      { st with scopes := ({ st' with scopes := st'.scopes.tail } : St).scopes,
+                out := ({ st' with scopes := st'.scopes.tail } : St).out,
+                heap := ({ st' with scopes := st'.scopes.tail } : St).heap } := by
+  rw [h]
+
+/-- Leaving a scope level: the outcome with the innermost specification scope removed. -/
+theorem SimGS.popLevel {α : Type} {G : GCtx} {A : Act} {loops lscopes d ip n stk mem}
+    {Q Q' : SScopes → List (Int × Val) → Prop} {st : St} {r : Except Ctl α × St}
+    (hQ : ∀ ss m, Q ss m → Q' ss.tail m)
+    (h : SimGS G A loops lscopes (d + 1) ip n stk mem Q st r) :
+    SimGS G A loops lscopes d ip n stk mem Q' st (r.1, { r.2 with scopes := r.2.scopes.tail }) := by
+  obtain ⟨r1, st1⟩ := r
+  cases r1 with
+  | ok u =>
+    obtain ⟨hfr, mem1, hrun1, hml1, hq⟩ := h
+    exact ⟨frame_pop st st1 hfr, mem1, hrun1, hml1, hQ _ _ hq⟩
+  | error ce' =>
+    cases ce'
+    case brk =>
+      cases loops with
+      | nil => exact h
+      | cons bc rest =>
+        obtain ⟨b, c⟩ := bc
+        obtain ⟨hfr, mem1, hrun1, hml1, hsr⟩ := h
+        exact ⟨frame_pop st st1 hfr, mem1, hrun1, hml1, by simpa [List.drop_tail] using hsr⟩
+    case cont =>
+      cases loops with
+      | nil => exact h
+      | cons bc rest =>
+        obtain ⟨b, c⟩ := bc
+        obtain ⟨hfr, mem1, hrun1, hml1, hsr⟩ := h
+        exact ⟨frame_pop st st1 hfr, mem1, hrun1, hml1, by simpa [List.drop_tail] using hsr⟩
+    case ret v =>
+      obtain ⟨hrt, hfr, mem1, hrun1, hml1⟩ := h
+      exact ⟨hrt, frame_pop st st1 hfr, mem1, hrun1, hml1⟩
+    case fatal kd m sp => exact h
+    case unsupported => trivial
+    case timeout => trivial
+    case throw msg tsp =>
+      obtain ⟨hfr, mem1, hrun1, hml1, hsr⟩ := h
+      exact ⟨frame_pop st st1 hfr, mem1, hrun1, hml1, by simpa [List.drop_tail] using hsr⟩
 
 theorem drop_of_tail_eq {α} {l l' : List α} (h : l'.tail = l.tail) (d : Nat) (hd : 1 ≤ d) :
     l'.drop d = l.drop d := by
@@ -241,12 +314,14 @@ theorem pgbs_step (G : GCtx) (n : Nat) (hPSs : PGSs G n) : PGBS G (n + 1) := by
           obtain ⟨hfr, mem1, hrun1, hml1, hsr⟩ := h1
           exact ⟨hfrB hfr, mem1, hrun1, hml1, by simpa [List.drop_tail] using hsr⟩
       case ret v =>
-        obtain ⟨hfr, mem1, hrun1, hml1⟩ := h1
-        exact ⟨hfrB hfr, mem1, hrun1, hml1⟩
+        obtain ⟨hrt, hfr, mem1, hrun1, hml1⟩ := h1
+        exact ⟨hrt, hfrB hfr, mem1, hrun1, hml1⟩
       case fatal kd m sp => exact h1
       case unsupported => trivial
       case timeout => trivial
-      case throw => exact h1
+      case throw msg tsp =>
+        obtain ⟨hfr, mem1, hrun1, hml1, hsr⟩ := h1
+        exact ⟨hfrB hfr, mem1, hrun1, hml1, by simpa [List.drop_tail] using hsr⟩
 
 theorem pgbs_zero (G : GCtx) : PGBS G 0 := by
   intro A hA loops lscopes d b env spec ip stk mem _ _ _ _ _ _ _ _
